@@ -10,5 +10,6 @@ func TestMain(m *testing.M) {
 	vh.Main(map[string]vh.CheckFunc{
 		"C17sio": C17sio,
 		"C14sio": C14sio,
+		"C15":    C15,
 	})
 }
